@@ -320,6 +320,9 @@ fn run_case(out: &mut Out, tmp: &str, id: u64, pr: &Probe, seal: bool, no_open: 
         let exists = |f: usize| f < nfiles || a.inodes.contains_key(&f);
         let w = within(&op, cur, &exists);
         let before_handles = a.opened.len();
+        // breadcrumb: the history up to and including this request, should the process die in it
+        fbrh::util::crumb(&format!("seal={} no={} adio={} dio={} files={} fal={} ops={}{}{}", seal as u8, no_open as u8, adio as u8, pr.dio,
+            sizes.iter().map(|s| s.to_string()).collect::<Vec<_>>().join(","), pr.fal, ops.join(";"), if ops.is_empty() { "" } else { ";" }, op));
         let r = a.exec(&op, nfiles, no_open);
         if r == "skip" {
             return;
@@ -478,6 +481,7 @@ fn main() {
     let pr = probe(&tmp.0);
     if let Some(f) = a.get("cases") {
         for (i, line) in std::fs::read_to_string(f).unwrap().lines().enumerate() {
+            fbrh::util::crumb(line);
             if line.trim().is_empty() {
                 continue;
             }
